@@ -362,4 +362,8 @@ def trig_vs_as_key(case, v):
     return bool(_re.search(r"(^|\n)\s*vs::?", _c1_of(v)))      # `vs::value` or the block form `vs:`
 
 
-TRIGGERS = {"multiword_in_pattern": trig_multiword_in_pattern, "vs_as_key": trig_vs_as_key}
+def trig_glued_vs(case, v):
+    return isinstance(case, list) and case[0] == "list" and "vs" in case[2] and any(t in ("&", "∧") for t in case[2]) and " vs" in _c1_of(v)
+
+
+TRIGGERS = {"multiword_in_pattern": trig_multiword_in_pattern, "vs_as_key": trig_vs_as_key, "glued_vs_in_pattern": trig_glued_vs}
